@@ -156,6 +156,15 @@ def c01_probes() -> list[Item]:
     out.append(_p("precomputed-hash-const-offsets",
                   [("PUSH", 0), "CALLDATALOAD", ("PUSHN", 32, b1 + 1), "SSTORE", ("PUSH", 0x22), ("PUSHN", 32, b1), "SSTORE", ("PUSHN", 32, b1 + 1), "SLOAD"] + RET,
                   inputs=[{"cd0": 0, "cd1": 0}, {"cd0": 0x77, "cd1": 0}, {"cd0": (1 << 256) - 3, "cd1": 0}]))
+    # CALLDATACOPY of a window of calldata after the path has pinned a calldata word by an equality (the copied chunk is a part of
+    # a word that the path's Concretization rewrites to a constant): exactly `size` bytes at `dst` change, the rest of memory stays
+    K = 0xA0A1A2A3A4A5A6A7A8A9AAABACADAEAFB0B1B2B3B4B5B6B7B8B9BABBBCBDBEBF
+    for dst, off, size in ((8, 2, 4), (8, 30, 4), (40, 0, 32), (3, 17, 40), (0, 31, 1)):
+        tail = [("PUSHN", 32, int("11" * 32, 16)), ("PUSH", 0), "MSTORE", ("PUSHN", 32, int("22" * 32, 16)), ("PUSH", 32), "MSTORE", ("PUSHN", 32, int("33" * 32, 16)), ("PUSH", 64), "MSTORE",
+                ("PUSH", size), ("PUSH", off), ("PUSH", dst), "CALLDATACOPY", "MSIZE", ("PUSH", 96), "MSTORE", ("PUSH", 128), ("PUSH", 0), "RETURN"]
+        out.append(_p(f"calldatacopy-window-after-pin-{dst}-{off}-{size}",
+                      [("PUSH", 0), "CALLDATALOAD", ("PUSHN", 32, K), "EQ", ("PUSHL", "pinned"), "JUMPI"] + tail + [("LABEL", "pinned")] + tail,
+                      inputs=[{"cd0": K, "cd1": int("c1" * 32, 16)}, {"cd0": K, "cd1": 0}, {"cd0": K + 1, "cd1": int("d2" * 32, 16)}, {"cd0": 0, "cd1": 1}]))
     out += c02_probes()
     out.append(_p("loop-head-at-pc0",
                   [("LABEL", "h"), ("PUSH", 0), "MLOAD", ("PUSHL", "x"), "JUMPI", ("PUSH", 1), ("PUSH", 0), "MSTORE", ("PUSHL", "h"), "JUMP", "INVALID",
